@@ -796,11 +796,15 @@ bool varintBitmapIteratorNext(varintBitmapIterator *it) {
     return false;
 }
 
-void varintBitmapAddMany(varintBitmap *vb, const uint16_t *values,
+bool varintBitmapAddMany(varintBitmap *vb, const uint16_t *values,
                          uint32_t count) {
     for (uint32_t i = 0; i < count; i++) {
-        varintBitmapAdd(vb, values[i]);
+        if (!varintBitmapAdd(vb, values[i]) &&
+            !varintBitmapContains(vb, values[i])) {
+            return false; /* Out of memory - values[0..i) were added */
+        }
     }
+    return true;
 }
 
 uint32_t varintBitmapToArray(const varintBitmap *vb, uint16_t *output) {
@@ -856,9 +860,9 @@ void varintBitmapClear(varintBitmap *vb) {
     }
 }
 
-void varintBitmapAddRange(varintBitmap *vb, uint16_t min, uint16_t max) {
+bool varintBitmapAddRange(varintBitmap *vb, uint16_t min, uint16_t max) {
     if (min >= max) {
-        return;
+        return true;
     }
 
     uint32_t rangeSize = max - min;
@@ -867,6 +871,10 @@ void varintBitmapAddRange(varintBitmap *vb, uint16_t min, uint16_t max) {
      * A non-empty set keeps its members: fall through and add one by one. */
     if (rangeSize > VARINT_BITMAP_ARRAY_MAX && vb->cardinality == 0) {
         /* Replace the (empty) container by a single run */
+        uint16_t *runs = malloc(2 * sizeof(uint16_t));
+        if (!runs) {
+            return false; /* Out of memory - set unchanged */
+        }
         if (vb->type == VARINT_BITMAP_ARRAY) {
             free(vb->container.array.values);
         } else if (vb->type == VARINT_BITMAP_BITMAP) {
@@ -878,29 +886,27 @@ void varintBitmapAddRange(varintBitmap *vb, uint16_t min, uint16_t max) {
         vb->type = VARINT_BITMAP_RUNS;
         vb->container.runs.numRuns = 1;
         vb->container.runs.capacity = 1;
-        vb->container.runs.runs = malloc(2 * sizeof(uint16_t));
-        if (!vb->container.runs.runs) {
-            /* Out of memory - reset to empty array container */
-            vb->type = VARINT_BITMAP_ARRAY;
-            vb->cardinality = 0;
-            vb->container.array.values = NULL;
-            vb->container.array.capacity = 0;
-            return;
-        }
+        vb->container.runs.runs = runs;
         vb->container.runs.runs[0] = min;
         vb->container.runs.runs[1] = (uint16_t)rangeSize;
         vb->cardinality = rangeSize;
-        return;
+        return true;
     }
 
     /* Otherwise add individually */
     for (uint16_t i = min; i < max; i++) {
-        varintBitmapAdd(vb, i);
+        if (!varintBitmapAdd(vb, i) && !varintBitmapContains(vb, i)) {
+            return false; /* Out of memory - [min, i) was added */
+        }
     }
+    return true;
 }
 
-void varintBitmapRemoveRange(varintBitmap *vb, uint16_t min, uint16_t max) {
+bool varintBitmapRemoveRange(varintBitmap *vb, uint16_t min, uint16_t max) {
     for (uint16_t i = min; i < max; i++) {
-        varintBitmapRemove(vb, i);
+        if (!varintBitmapRemove(vb, i) && varintBitmapContains(vb, i)) {
+            return false; /* Out of memory - [min, i) was removed */
+        }
     }
+    return true;
 }
